@@ -136,7 +136,11 @@ pub fn judge<A: Attr>(rep: &mut Report, p: &[[f32; 3]; 3], a: &[[f32; MAXC]; 3])
                 // ∇(N/D) = (∇N·D − N·∇D)/D²
                 let gn = grad(&av);
                 let g = (((gn.0 * ze - n * gz.0) / (ze * ze)).powi(2) + ((gn.1 * ze - n * gz.1) / (ze * ze)).powi(2)).sqrt();
-                let tol = 0.005 * arange[c] + 1e-5 * amax[c] + 0.001 * g + 1e-30;
+                // rounding floor: the stepped sums a/w and 1/w each carry a
+                // few ulps of their largest value, and the quotient amplifies
+                // that by (largest 1/w)/(1/w here) — what remains when the
+                // attribute is (nearly) constant and 0.5 % of its range is ≈ 0
+                let tol = 0.005 * arange[c] + 1e-5 * amax[c] * (zhi.abs().max(zlo.abs()) / ze.abs()).clamp(1.0, 100.0) + 0.001 * g + 1e-30;
                 let err = (f.var[c] as f64 - ae).abs();
                 if err <= tol {
                     rep.worst(if is_color::<A>() { "attr_err/tol(colour types)" } else { "attr_err/tol" }, err / tol, 1.0, || format!("{} {p:?} a={:?} centre {centre:?} got {} exp {ae} tol {tol:.3e} = 0.005*{:.3e} + 1e-5*{:.3e} + 0.001*{g:.3e}", A::NAME, [&a[0][..A::N], &a[1][..A::N], &a[2][..A::N]], f.var[c], arange[c], amax[c]));
@@ -170,17 +174,30 @@ pub fn judge<A: Attr>(rep: &mut Report, p: &[[f32; 3]; 3], a: &[[f32; MAXC]; 3])
 pub fn gen_case<A: Attr>(rng: &mut Rng, ext: f32) -> ([[f32; 3]; 3], [[f32; MAXC]; 3], bool) {
     let xy = gen_coords(rng, ext);
     let persp = !rng.chance(1, 6);
-    let wbase = rng.pick(&[0.1f32, 1.0, 1.0, 10.0]);
-    let amp = rng.pick(&[1.0f32, 1.0, 255.0, 0.01]);
+    // depths from a millimetre to ten kilometres, attribute magnitudes over
+    // fourteen decades (the oracle and its tolerances are scale-relative)
+    let wbase = rng.pick(&[0.1f32, 1.0, 1.0, 10.0, 1e-3, 1e2, 1e4]);
+    let amp = rng.pick(&[1.0f32, 1.0, 255.0, 0.01, 1e-6, 1e4, 1e8]);
     let off = if rng.chance(1, 3) { rng.f32_in(-3.0, 3.0) * amp } else { 0.0 };
     let mut p = [[0.0f32; 3]; 3];
     let mut a = [[0.0f32; MAXC]; 3];
+    let mut vals = [[0.0f32; MAXC]; 3];
+    // per component: independent values, or ties between vertices (flat
+    // colour, alpha = 1, a shared edge value), or zeros of either sign
+    let tie: [u64; MAXC] = std::array::from_fn(|_| rng.below(12));
     for i in 0..3 {
         let w = if persp { wbase * rng.f32_in(1.0, 10.0) } else { 1.0 };
         p[i] = [xy[i][0], xy[i][1], 1.0 / w];
         for c in 0..A::N {
             let val = off + amp * rng.f32_in(-1.0, 1.0);
-            a[i][c] = val / w; // what render() hands to tri_fill: attrib.z_div(w)
+            vals[i][c] = match (tie[c], i) {
+                (0, 1) | (0, 2) | (1, 1) | (2, 2) => vals[0][c], // all equal / v1 = v0 / v2 = v0
+                (3, _) => 0.0,
+                (4, _) => [0.0, -0.0, 0.0][i],
+                (5, _) => amp, // e.g. alpha = 1 everywhere
+                _ => val,
+            };
+            a[i][c] = vals[i][c] / w; // what render() hands to tri_fill: attrib.z_div(w)
         }
     }
     (p, a, persp)
@@ -199,6 +216,9 @@ fn one<A: Attr>(rng: &mut Rng, rep: &mut Report, idx: u64) {
     h.bytes(A::NAME.as_bytes());
     rep.case(h.get(), true);
     rep.count(if persp { "w.varying_up_to_10:1" } else { "w.all_one(affine)" });
+    if (0..A::N).any(|c| a[0][c] * p[1][2] == a[1][c] * p[0][2] && a[0][c] * p[2][2] == a[2][c] * p[0][2]) {
+        rep.count("attr.component_constant_over_the_triangle");
+    }
     let ys = [p[0][1], p[1][1], p[2][1]];
     let mut s = ys;
     s.sort_by(|a, b| a.partial_cmp(b).unwrap());
@@ -218,7 +238,7 @@ fn one<A: Attr>(rng: &mut Rng, rep: &mut Report, idx: u64) {
 
 pub fn run(cfg: &Cfg, rep: &mut Report) {
     rep.rule = "case = one screen triangle (C04's coordinate families, extent ≤ 64 px) with per-vertex reciprocal depth 1/w (w ratio ≤ 10:1, or all 1) and attributes of 11 types (f32, Vec2, Vec3, Color3f, Color4f, Angle, Point3, tuples incl. nested and colour+point), every fragment judged; non-trivial = all (area ≤ 1e-6 px² inputs are skipped and counted); distinct by hash of all vertex words".into();
-    rep.assumptions.push("value tolerance = 0.5 % of the vertex-value range + 1e-5·|max| (f32 rounding floor) + 0.001 px·|∇value| (the position tolerance C04 grants, first order); the NaN/inf clause has no slack".into());
+    rep.assumptions.push("value tolerance = 0.5 % of the vertex-value range + 1e-5·|max|·(largest 1/w ÷ local 1/w) (f32 rounding floor of the stepped sums) + 0.001 px·|∇value| (the position tolerance C04 grants, first order); the NaN/inf clause has no slack".into());
 
     // pinned witness F1: lower half exactly one row high
     {
@@ -275,6 +295,7 @@ pub fn run(cfg: &Cfg, rep: &mut Report) {
         _ => one::<(Color3f, Point2)>(rng, rep, i),
     });
     rep.floor("fragments_judged", 20_000_000);
+    rep.floor("attr.component_constant_over_the_triangle", 20_000);
     rep.floor("shape.half_exactly_one_row_high", 2_000);
     rep.floor("shape.half_less_than_one_row_high", 5_000);
     rep.floor("shape.flat_top_or_bottom", 2_000);
